@@ -273,7 +273,7 @@ def mutate_schema(rng, schema, members):
         st["__loader__"] = rng.choice(["NoSuchNode", "CachedNode", "JsonNode", "ListNode", "DictNode", "NdArrayNode", "SparseMatrixNode",
                                        "ObjectNode", "TypeNode", "FunctionNode", "MethodNode", "ReduceNode", "TreeNode", "SGDLossNode", 3, None])
     elif kind == "protocol":
-        s["protocol"] = rng.choice([-1, 0, 1, 99, "2", None, 2.5, [], True])
+        s["protocol"] = rng.choice([-1, 0, 1, 99, "2", None, 2.5, [], True, -10**15, 10**15, -2**63, 10**30])
     elif kind == "shape":
         for x, _ in states:
             if "shape" in x:
